@@ -14,7 +14,7 @@ ASSUME = [
 
 def run(tier):
     if tier == "quick":
-        plan = [dict(variant="sim", runs=40000, label="sim"), dict(variant="simtsan", runs=4000, label="simtsan")]
+        plan = [dict(variant="sim", runs=40000, label="sim", timeout=150), dict(variant="simtsan", runs=4000, label="simtsan", timeout=150)]
     else:
         plan = [dict(variant="sim", runs=4000000, label="sim", timeout=3000), dict(variant="simtsan", runs=400000, label="simtsan", timeout=3000)]
     return e1.run_e1("C03", tier, "c03.cc", plan, nops=8, rule=RULE, assumptions=ASSUME, design_ref="3/C03")
